@@ -440,7 +440,7 @@ fn mismatch_checks(rep: &mut Report) {
                     ));
                 }
                 // complex: imaginary part of a different shape as well
-                for (n2, m2) in [(n, m), (m, n)] {
+                for (n2, m2) in (1..=4usize).flat_map(|a| (1..=4usize).map(move |b| (a, b))) {
                     let mut ar = Matrix::zeros(n, m);
                     let mut ai = Matrix::zeros(n2, m2);
                     for i in 0..n.min(m) {
